@@ -1,5 +1,6 @@
 SPECIFICATION Spec
 CONSTANTS
   Emit = TRUE
+  Masks = "few"
 INVARIANTS PackLaws SelectLaws CmpLaws GroupLaws EmitGroup
 CHECK_DEADLOCK FALSE
